@@ -22,11 +22,14 @@ KNOBS = ('cwd', 'umask', 'shell', 'ifile', 'noorg', 'noatt', 'mailrun', 'att2', 
 # clauses a knob can bear on; routing clauses do not carry the knob in their signature
 KNOB_CLAUSES = ('cwd', 'umask', 'stdin', 'shell', 'mail-unwanted', 'mail-count', 'mail-hdr', 'run-count', 'hang', 'echsx-died')
 # under the slowmail knob (2 s limit, job done at once, mailer busy for 4 s) every clause carries the knob
-ALL_CLAUSES_KNOBS = ('slowmail', 'mailfail', 'nomailer', 'slowpipe', 'relfile', 'devnull-o', 'devnull-e')
+ALL_CLAUSES_KNOBS = ('slowmail', 'mailfail', 'nomailer', 'slowpipe', 'relfile', 'devnull-o', 'devnull-e', 'stopcont')
+# flagorder: the three mail flag lines of the request in every order, X-ECHS-MAIL-RUN given as an explicit 0
+FLAG_ORDERS = ('ROE', 'REO', 'ORE', 'OER', 'ERO', 'EOR')
 # the umask menu: both ends, the usual ones, and the two largest values a request can carry
 UMASKS = (0o000, 0o022, 0o077, 0o377, 0o776, 0o777)
 NOMAIL_ROWS = ('R4', 'R8', 'R12', 'R16', 'R20', 'N4')
-SIZES = {'silent': (0, 0), 'out3': (192, 0), 'err3': (0, 192), 'alt50': (1600, 1600), 'big': (204800, 204800)}
+SIZES = {'silent': (0, 0), 'out3': (192, 0), 'err3': (0, 192), 'alt50': (1600, 1600), 'big': (204800, 204800),
+         'stopcont': (3200, 3200)}
 IFILE_TEXT = b''.join(bytes([97 + (i * 5 + i // 64) % 26]) if i % 64 != 63 else b'\n' for i in range(70000))
 
 
@@ -62,6 +65,17 @@ def is_um(knob):
     return bool(knob) and len(knob) == 6 and knob.startswith('um') and knob[2:].isdigit()
 
 
+def is_fo(knob):
+    return bool(knob) and knob.startswith('fo-') and knob[3:] in FLAG_ORDERS
+
+
+def sig_knob(knob):
+    """what a knob contributes to a signature: the flag orders are classed by where the MAIL-RUN line stands"""
+    if is_fo(knob):
+        return 'flagorder-run-' + ('first', 'mid', 'last')[knob[3:].index('R')]
+    return knob
+
+
 def extras(which):
     """cases added after the pair case (so that the indices of everything before stay what they were):
     * relfile: OFILE/EFILE given as RELATIVE names next to a LOCATION, every row of the table
@@ -83,6 +97,18 @@ def extras(which):
             out.append((r, 'alt50', '0', 'devnull-o'))
         if r['err'] and r['err'] != 'same':
             out.append((r, 'alt50', '0', 'devnull-e'))
+    # stopcont: the job stops itself (SIGSTOP) half way through its output, is continued half a second later by a
+    # helper, writes the rest and exits 5: a stopped job is not a finished job -- all clauses as usual (journal
+    # status 5 written after the job's real end, every byte routed, one mail)
+    for r in R:
+        if which != 'quick' or r['name'] in ('R1', 'R5', 'R13', 'R17', 'R20'):
+            out.append((r, 'stopcont', '5', 'stopcont'))
+    # flagorder: X-ECHS-MAIL-RUN:0, X-ECHS-MAIL-OUT:<row>, X-ECHS-MAIL-ERR:<row> in all six orders; the README has
+    # MAIL-RUN implied by MAIL-OUT / MAIL-ERR, so every order must give what the row prescribes (and all six the same)
+    for r in R:
+        if which != 'quick' or r['name'] in ('R1', 'R6', 'R7', 'R14', 'R19', 'R20'):
+            for o in FLAG_ORDERS:
+                out.append((r, 'alt50', '3', 'fo-' + o))
     return out
 
 
@@ -227,6 +253,11 @@ def run_case(D, d, row, jobm, ex, knob, uid, echsx, shim, rec, job):
         extra = ('DURATION:PT2S',)
     uidtxt = 'c13-%d' % D.idx
     txt = vtodo(uidtxt, cmd, row, fdir, uid, k, extra)
+    if is_fo(knob):
+        flag = {'R': 'X-ECHS-MAIL-RUN:0', 'O': 'X-ECHS-MAIL-OUT:%d' % row['mo'], 'E': 'X-ECHS-MAIL-ERR:%d' % row['me']}
+        old = 'X-ECHS-MAIL-OUT:%d\nX-ECHS-MAIL-ERR:%d\n' % (row['mo'], row['me'])
+        assert txt.count(old) == 1 and 'X-ECHS-MAIL-RUN' not in txt
+        txt = txt.replace(old, ''.join(flag[c] + '\n' for c in knob[3:]))
     if knob == 'relfile':
         txt = txt.replace('X-ECHS-OFILE:%s/' % fdir, 'X-ECHS-OFILE:').replace('X-ECHS-EFILE:%s/' % fdir, 'X-ECHS-EFILE:')
     jrow = row
@@ -344,7 +375,7 @@ def run_case(D, d, row, jobm, ex, knob, uid, echsx, shim, rec, job):
     R['stdin'] = rd(os.path.join(d, 'stdin'))
     sl = rd(os.path.join(d, 'shell.log'))
     R['shell_log'] = None if sl is None else sl.decode('latin-1').split('\n')[:-1]
-    status = {'0': ('exit', 0), '3': ('exit', 3), 'term': ('signal', 15), 'kill': ('signal', 9)}[ex]
+    status = {'0': ('exit', 0), '3': ('exit', 3), '5': ('exit', 5), 'term': ('signal', 15), 'kill': ('signal', 9)}[ex]
     mailsel = row['mo'] or row['me'] or knob == 'mailrun'
     exp = {'row': jrow, 'out': out or b'', 'err': err or b'', 'cmd': cmd, 'uid': uidtxt, 'status': status,
            'mail': bool(mailsel and knob not in ('noorg', 'noatt', 'nomailer')),
@@ -357,7 +388,11 @@ def run_case(D, d, row, jobm, ex, knob, uid, echsx, shim, rec, job):
             wo, we = len(want_stdin), 0
         else:
             wo, we = SIZES[jobm]
-        if out is None or err is None or (len(out), len(err)) != (wo, we):
+        if jobm == 'stopcont' and out is not None and err is not None and (len(out), len(err)) == (wo // 2, we // 2):
+            # echsx is back while the job is still stopped (or only just continued): not the job's fault, the
+            # clauses below say what that means for status and routing
+            pass
+        elif out is None or err is None or (len(out), len(err)) != (wo, we):
             D.viol('harness/job-output/%s' % jobm, 'job recorded %s/%s bytes, its mode says %d/%d' % (
                 None if out is None else len(out), None if err is None else len(err), wo, we))
     bad = 0
@@ -371,9 +406,12 @@ def run_case(D, d, row, jobm, ex, knob, uid, echsx, shim, rec, job):
         sig = '%s/%s' % (clause, shape)
         if clause in ('journal-status', 'mail-status'):
             sig += '/' + ex
-        if knob and (clause in KNOB_CLAUSES or knob in ALL_CLAUSES_KNOBS):
-            sig += '/' + knob
+        if knob and (clause in KNOB_CLAUSES or knob in ALL_CLAUSES_KNOBS or is_fo(knob)):
+            sig += '/' + sig_knob(knob)
         D.viol(sig, detail)
+    if knob == 'stopcont' and not bad and rd(os.path.join(d, 'stopped')) != b'T\n':
+        # guards the harness, not echsx: the job's helper must have seen the job stopped
+        D.viol('harness/stopcont', 'the job was not seen in the stopped state before it was continued')
     if len(exp['out']) + len(exp['err']) > 0 and (row['out'] or row['err'] or exp['mail']):
         D.nontrivial()
     D.count('runs_' + ('big' if jobm == 'big' else 'small'))
